@@ -1,7 +1,7 @@
 import json, os
 
 SPEC = {
-    "lean_modules": ["SemaModel.C16.Props"],
+    "lean_modules": ["SemaModel.C16.Props", "SemaModel.C16.Pins"],
     "lean_dirs": ["SemaModel/C16"],
     "harness": "c16",
     "harness_args": {"quick": ["-n", 600, "-storm", 150], "thorough": ["-n", 5000, "-storm", 1500]},
